@@ -16,7 +16,11 @@ EXPLANATION = (
     "of KROMEReaction.rateexpr consists of exactly the reviewed rewritings: the d-exponent pattern requires a digit before `d` and keeps sign and "
     "digits of the exponent, the idx_ suffix patterns admit species names of any length and agree with Species.alias (p -> II, m -> M, neutral -> I); "
     "R4 directive state is reset by initialize() for every class attribute preprocessing mutates (shared with C17.R4); R5 the translation entry "
-    "points (KROMEReaction.rateexpr, ExpressionConverter.read/__str__/__format__) are not memoised -- reaction equality ignores the rate string.")
+    "points (KROMEReaction.rateexpr, ExpressionConverter.read/__str__/__format__) are not memoised -- reaction equality ignores the rate string; "
+    "R1 also: no alternative that starts with a sign terminal is derivable (through unit productions) from the base operand of POW (-x**2 is -(x**2)); "
+    "R2 callbacks in a spelling other than join/replace chains are judged by their output on concrete children of the rule's shapes; "
+    "R8 the text reaches the reviewed pre-pass unrewritten: preprocessing returns its line (stripped) or \"\", rate_string is the rate column of the "
+    "comma-split line with the one reviewed spelling change dexp -> exp.")
 ASSUMPTIONS = [
     "numerical equality of the two expressions over all valuations is not decided",
     "lark's grammar loader represents the grammar text faithfully",
